@@ -198,16 +198,17 @@ PROPS['C02'] = {
 
 PROPS['C03'] = {
     'level': 'other',
-    'units': ['C18/smallints', 'C04/less', 'C04/occ'],
+    'units': ['C03/lcp', 'C18/smallints', 'C04/less', 'C04/occ'],
     'kani': [],
     'oracle': 'C03',
-    'decided': ['the LCP-array container SmallInts<i8, isize> (anchored file smallints.rs) behaves as a plain Vec<isize> for every value incl. exactly 127, larger and negative (unit shared with C18)',
+    'decided': ['lcp() (Kasai): GIVEN a sorted suffix array of a single-sentinel text of length >= 2, the LCP array holds -1 at both ends and the TRUE longest-common-prefix length of every pair of adjacent suffixes (suffix-order theory: lcp characterisation, antisymmetry, transitivity, sandwich lemma, Kasai lemma - all proved; termination of the scan proved)',
+                'the LCP-array container SmallInts<i8, isize> behaves as a plain Vec<isize> for every value incl. exactly 127, larger and negative (unit shared with C18)',
                 'bwt/less/Occ (used by the sampled suffix array walk, every Occ sampling rate) are exact (units shared with C04)'],
-    'undecided': ['SA-IS construction (Sais::{construct, calc_lms_pos, sort_lms_suffixes, calc_pos}): the sorted-permutation clause - induced sorting correctness is out of reach of the contracts built here',
-                  'lcp (Kasai) and shortest_unique_substrings against their definitions', 'SampledSuffixArray::get walk', 'transform_text / sentinel_count (closure adapters, generic casts)'],
-    'trusted': ['as C18 / C04'],
-    'level_text': 'Only the containers and tables the suffix-array module builds on are proved (SmallInts, bwt/less); the suffix sorting itself, LCP and sampling are NOT decided by contracts and are covered only by the bounded stand-in (replay oracle: brute-force sorting on small texts).',
-    'level_note': 'Level other (thin partial). The deciding content is shared with C18/C04; everything specific to suffix sorting is undecided.',
+    'undecided': ['SA-IS construction (Sais::{construct, calc_lms_pos, sort_lms_suffixes, calc_pos}): that the array IS sorted - induced sorting correctness is out of reach of the contracts built here (the lcp proof takes sortedness as a precondition)',
+                  'shortest_unique_substrings against its brute-force definition', 'SampledSuffixArray::get walk', 'transform_text / sentinel_count (closure adapters, generic casts)'],
+    'trusted': ['SmallInts stub inside C03/lcp carries exactly the from_elem/set contracts proved in C18/smallints', 'cmp::min std spec', 'as C18 / C04 for the shared units'],
+    'level_text': 'Verus proves the LCP computation (Kasai) correct for every sorted suffix array of a single-sentinel text, plus the containers and tables the module builds on; that SA-IS produces the sorted array is NOT decided by contracts (bounded stand-in only).',
+    'level_note': 'Level other (partial): LCP given sortedness, containers, tables. Suffix sorting itself undecided.',
 }
 
 NOT_APPLICABLE = {
